@@ -73,7 +73,9 @@ class DelayFixed(TimeDelayAdapter):
     def with_delay(self, time):
         off = time - self.delay
         if off < self.initial_time:
-            return self.initial_time
+            # never move a request forward in time (initial data can be
+            # published for the composition's start, before initial_time)
+            return min(time, self.initial_time)
 
         return off
 
@@ -194,9 +196,11 @@ class DelayToPull(TimeDelayAdapter, NoBranchAdapter):
         t = self._pulls[0]
         off = t - self.additional_delay
         if off < self.initial_time:
-            return self.initial_time
+            off = self.initial_time
 
-        return off
+        # never move a request forward in time (initial data can be
+        # published for the composition's start, before initial_time)
+        return min(time, off)
 
     def _pulled(self, time):
         self._pulls.append(time)
